@@ -72,6 +72,10 @@ Replace(p, x, y) == IF p = <<>> THEN y
                          THEN LET n == Replace(Tail(p), S(T(x)[2], V(x)[2]), y) IN S(TPair(T(n), T(x)[3]), <<"p", V(n), V(x)[3]>>)
                          ELSE LET n == Replace(Tail(p), S(T(x)[3], V(x)[3]), y) IN S(TPair(T(x)[2], T(n)), <<"p", V(x)[2], V(n)>>)
 
+Most(p) == SubSeq(p, 1, Len(p) - 1)
+LastIsD(p) == p[Len(p)] = "D"
+MapBodyTypes(p, ty) == IF LastIsD(p) THEN <<FollowT(p, ty), FollowT(Most(p), ty)>> ELSE <<FollowT(p, ty)>>
+
 \* well-typedness of a macro on a type stack (bodies are checked with the reference typing)
 MOk(m, ts) ==
   LET n == Len(ts)  a == ts[1]  b == ts[2] IN
@@ -90,7 +94,9 @@ MOk(m, ts) ==
     [] m[1] = "CADR" -> n >= 1 /\ PathOK(m[2], a)
     [] m[1] = "SET_CADR" -> n >= 2 /\ PathOK(m[2], a)
     [] m[1] = "MAP_CADR" -> n >= 1 /\ PathOK(m[2], a)
-                            /\ LET r == TyS(m[3], <<FollowT(m[2], a)>> \o Drop(ts, 1)) IN ~IsIll(r) /\ ~IsFailed(r) /\ Len(r) = n
+                            /\ LET r == TyS(m[3], MapBodyTypes(m[2], a) \o Drop(ts, 1)) IN
+                                 ~IsIll(r) /\ ~IsFailed(r) /\ Len(r) = n + (IF LastIsD(m[2]) THEN 1 ELSE 0)
+                                 /\ (LastIsD(m[2]) => r[2][1] = "pair")
     [] m[1] = "IF_SOME" -> n >= 1 /\ a[1] = "option" /\ ~IsIll(Join(TyS(m[2], <<a[2]>> \o Drop(ts, 1)), TyS(m[3], Drop(ts, 1))))
     [] m[1] = "IF_RIGHT" -> n >= 1 /\ a[1] = "or" /\ ~IsIll(Join(TyS(m[2], <<a[3]>> \o Drop(ts, 1)), TyS(m[3], <<a[2]>> \o Drop(ts, 1))))
 
@@ -114,8 +120,18 @@ MRun(m, st) ==
     [] m[1] = "UNPAIR" -> Ok(Unbuild(m[2], a) \o r1)
     [] m[1] = "CADR" -> Ok(<<Follow(m[2], a)>> \o r1)
     [] m[1] = "SET_CADR" -> Ok(<<Replace(m[2], a, b)>> \o r2)
-    [] m[1] = "MAP_CADR" -> LET r == RunSeq(m[3], <<Follow(m[2], a)>> \o r1, NoEnv, f) IN
-                            IF r[1] # "ok" THEN r ELSE Ok(<<Replace(m[2], a, r[2][1])>> \o Tail(r[2]))
+    [] m[1] = "MAP_CADR" ->
+         \* the reference defines MAP_C..AR / MAP_C..DR by expansion; what the body can see below the field differs:
+         \*   ..A:  DUP ; CDR ; DIP { CAR ; code } ; SWAP ; PAIR        body on   field : S
+         \*   ..D:  DUP ; CDR ; code ; SWAP ; CAR ; PAIR                body on   field : enclosing pair : S   (then CAR of what lies below the result)
+         LET par == Follow(Most(m[2]), a)
+             r == RunSeq(m[3], (IF LastIsD(m[2]) THEN <<Follow(m[2], a), par>> ELSE <<Follow(m[2], a)>>) \o r1, NoEnv, f) IN
+         IF r[1] # "ok" THEN r
+         ELSE IF LastIsD(m[2])
+              THEN LET x == r[2][2]  np == S(TPair(T(x)[2], T(r[2][1])), <<"p", V(x)[2], V(r[2][1])>>) IN
+                   Ok(<<Replace(Most(m[2]), a, np)>> \o Drop(r[2], 2))
+              ELSE LET np == S(TPair(T(r[2][1]), T(par)[3]), <<"p", V(r[2][1]), V(par)[3]>>) IN
+                   Ok(<<Replace(Most(m[2]), a, np)>> \o Tail(r[2]))
     [] m[1] = "IF_SOME" -> IF V(a) = <<"none">> THEN RunSeq(m[3], r1, NoEnv, f) ELSE RunSeq(m[2], <<S(T(a)[2], V(a)[2])>> \o r1, NoEnv, f)
     [] m[1] = "IF_RIGHT" -> IF V(a)[1] = "r" THEN RunSeq(m[2], <<S(T(a)[3], V(a)[2])>> \o r1, NoEnv, f) ELSE RunSeq(m[3], <<S(T(a)[2], V(a)[2])>> \o r1, NoEnv, f)
 
@@ -131,7 +147,7 @@ Spec == Init /\ [][Next]_vars
 UnpairUndoesPair == mac[1] = "PAIR" => MRun(<<"UNPAIR", mac[2]>>, res[2]) = Ok(stk)
 PairUndoesUnpair == mac[1] = "UNPAIR" => MRun(<<"PAIR", mac[2]>>, res[2]) = Ok(stk)
 SetThenGet == mac[1] = "SET_CADR" => Follow(mac[2], res[2][1]) = stk[2]
-MapIsSetOfBody == mac[1] = "MAP_CADR" /\ res[1] = "ok" =>
+MapIsSetOfBody == mac[1] = "MAP_CADR" /\ res[1] = "ok" /\ ~LastIsD(mac[2]) =>
                     LET r == RunSeq(mac[3], <<Follow(mac[2], stk[1])>> \o Drop(stk, 1), NoEnv, 8) IN res[2][1] = Replace(mac[2], stk[1], r[2][1])
 ResultsWellTyped == res[1] = "ok" => SlotsOK(res[2])
 CmpIsCompareThenTest == mac[1] = "CMP" => res = RunSeq(<< <<"COMPARE">>, <<mac[2]>> >>, stk, NoEnv, 8)
